@@ -54,7 +54,7 @@ FACT_THEOREMS = {
     # the word-level kernel of src/portable.rs, translated from the current source, is the hand-written model
     "C01": ("theories/Properties/SourceKernel.v",
             ["SRC_new", "SRC_zipper_merge_and_add", "SRC_update", "SRC_permute", "SRC_permute_and_update", "SRC_module_reduction",
-             "SRC_rotate_32_by", "SRC_update_lanes", "SRC_update_remainder", "SRC_finalize"]),
+             "SRC_rotate_32_by", "SRC_update_lanes", "SRC_data_to_lanes", "SRC_remainder", "SRC_update_remainder", "SRC_finalize"]),
     "C15": ("theories/Properties/FactsC15.v", ["C15_no_global_state"]),
     "C07": ("theories/Properties/FactsC07.v", ["C07_default_impls"]),
     "C12": ("theories/Properties/FactsC12.v", ["C12_adapter_macros"]),
